@@ -1368,8 +1368,12 @@ def explore_c16(ctx, res, replay_ops=None):
 _ber_trust = ["Go reflect, and the table emitter classifying struct types (Value/List/Present conventions) in harness/cmd/ber.go",
               "Spec/X690.lean is my transcription of X.690 (no copy of the standard in the sandbox)"]
 PROPS["C04"] = dict(lean=["ChfVerif.Props.C04"], explore=explore_c04, gen=[gen_table("schema", "Schema.lean")], trusted=_ber_trust)
-PROPS["C05"] = dict(lean=["ChfVerif.Props.C05"], explore=explore_c05, gen=[gen_table("schema", "Schema.lean")], trusted=_ber_trust)
-PROPS["C16"] = dict(lean=["ChfVerif.Props.C16"], explore=explore_c16, trusted=_ber_trust)
+_ber_state_trust = ["the go/ast extractor of cdr/asn's package-level variables (harness/cmd/asnglobals.go) and the reading of its facts as a frame "
+                    "condition on calls (CodecState.Respects): a variable nothing assigns to, takes the address of or calls a method on is not changed by a call"]
+PROPS["C05"] = dict(lean=["ChfVerif.Props.C05"], explore=explore_c05,
+                    gen=[gen_table("schema", "Schema.lean"), gen_table("asnglobals", "AsnGlobals.lean")], trusted=_ber_trust + _ber_state_trust)
+PROPS["C16"] = dict(lean=["ChfVerif.Props.C16"], explore=explore_c16, gen=[gen_table("asnglobals", "AsnGlobals.lean")],
+                    trusted=_ber_trust + _ber_state_trust)
 
 
 # ------------------------------------------------------------------ C03  (CDR files written by the CHF)
